@@ -475,6 +475,6 @@ pub fn main(args: &Args) -> Report {
     for p in COMMIT_POINTS.iter().chain(COMPACT_POINTS.iter()).chain(READ_POINTS.iter()) {
         rep.floor(&format!("parked at {p}"), rep.counter(&format!("parked.{p}")), if thorough { 20 } else { 4 });
     }
-    rep.floor("stress snapshots checked", rep.counter("snapshots_checked"), if thorough { 2000 } else { 200 });
+    rep.floor("stress snapshots checked", rep.counter("snapshots_checked"), if thorough { 800 } else { 100 });
     rep
 }
